@@ -1,21 +1,53 @@
 import Gocc.Driver.Unit
+import Gocc.Driver.Gram
 open Gocc.Driver
 
-def dispatch (line : String) : String :=
+structure DState where
+  arts : Array (Option Art) := #[]
+
+def setArt (st : DState) (id : Nat) (a : Art) : DState :=
+  let arts := if st.arts.size ≤ id then st.arts ++ Array.replicate (id + 1 - st.arts.size) none else st.arts
+  { arts := arts.set! id (some a) }
+
+def withArt (st : DState) (args : List String) (f : Art → List String → Option String) : String :=
+  match args with
+  | ids :: rest =>
+    match ids.toNat? with
+    | some id =>
+      match (st.arts[id]?).join with
+      | some a => (f a rest).getD "bad-op"
+      | none => "no-such-grammar"
+    | none => "bad-op"
+  | [] => "bad-op"
+
+def dispatch (st : DState) (line : String) : DState × String :=
   match toks line with
-  | [] => ""
+  | [] => (st, "")
+  | "G" :: ids :: rest =>
+    match ids.toNat?, (pGrammar.run rest) with
+    | some id, some (g, []) => (setArt st id (mkArt g), "ok")
+    | _, _ => (st, "bad-grammar")
+  | "lextab" :: args => (st, withArt st args fun a _ => some (showLexTab a))
+  | "lrtab" :: args => (st, withArt st args fun a _ => some (showLRTab a))
+  | "terminals" :: args => (st, withArt st args fun a _ => some (opTerminals a))
+  | "scan" :: args => (st, withArt st args opScan)
+  | "refscan" :: args => (st, withArt st args opRefScan)
+  | "lexeq" :: args => (st, withArt st args fun a _ => some (opLexEq a))
+  | "parse" :: args => (st, withArt st args opParse)
+  | "c08oracle" :: args => (st, (c08Oracle args).getD "bad-op")
   | op :: args =>
     match unitOp op args with
-    | some r => r
-    | none => "bad-op"
+    | some r => (st, r)
+    | none => (st, "bad-op")
 
-partial def loop (h : IO.FS.Stream) (out : IO.FS.Stream) : IO Unit := do
+partial def loop (h : IO.FS.Stream) (out : IO.FS.Stream) (st : DState) : IO Unit := do
   let line ← h.getLine
   if line.isEmpty then return ()
-  out.putStrLn (dispatch line)
-  loop h out
+  let (st', r) := dispatch st line
+  out.putStrLn r
+  loop h out st'
 
 def main : IO Unit := do
   let out ← IO.getStdout
-  loop (← IO.getStdin) out
+  loop (← IO.getStdin) out {}
   out.flush
